@@ -20,6 +20,8 @@
 #include <morfuse/Script/EventSystem.h>
 #include <morfuse/Script/EventContext.h>
 #include <morfuse/Script/Listener.h>
+#include <morfuse/Script/EventQueue.h>
+#include <morfuse/Common/Time.h>
 #include <morfuse/Script/NamespaceDef.h>
 #include <morfuse/Script/NamespaceManager.h>
 #include <morfuse/Container/ContainerView.h>
@@ -303,10 +305,52 @@ std::string doCall(size_t cls, const std::string& mode, evType_e kind, const std
     return out + res;
 }
 
+// the script command `commanddelay <seconds> <command> ...` (Listener::CommandDelay) on an instance
+// of a host class: resolves <command> through the index-based FindEventInfo, posts the event, and
+// the queue delivers it through ProcessEvent.  Reports the number that was posted (0: nothing was)
+// and what the delivery did.
+uinttime_t fixedClock() { return 1000; }
+
+std::string doDelay(size_t cls, const std::string& name)
+{
+    const ClassDef* c = clss[cls - 1].def;
+    EventSystem& es = EventSystem::Get();
+    EventQueue& q = EventContext::Get().GetEventQueue();
+    std::unique_ptr<HostObj> obj(new HostObj(c));
+    Event ev(es.FindNormalEventNum("commanddelay"));
+    ev.AddFloat(0.f);
+    ev.AddString(name.c_str());
+    g_lastHandler = -1;
+    try { obj->CommandDelay(ev); }
+    catch (const std::exception&) { return "delay 0 exception"; }
+    eventNum_t posted = 0;
+    size_t count = 0;
+    for (auto n = q.Node.CreateIterator(); n; n = n.Next())
+        if (n->GetSourceObject() == obj.get()) { posted = n->event->Num(); ++count; }
+    if (count == 0) return "delay 0 dropped";
+    if (count > 1) return "delay " + std::to_string(posted) + " POSTED-TWICE";
+    const ResponseDefClass* r = c->GetResponse(posted);
+    std::string out = "delay " + std::to_string(posted) + " ";
+    if (r && !respIsHost(r)) {
+        // inherited from a built-in class: not delivered (its handler acts on engine state)
+        obj->CancelPendingEvents();
+        const EventDef* d = es.GetEventDef(posted);
+        const NamespaceManager& nm = EventContext::Get().GetNamespaceManager();
+        return out + (nm.IsObjectInNamespaceAllowed(*d) ? "ran " + respTok(r) : std::string("nothing"));
+    }
+    q.ProcessPendingEvents(obj.get());
+    if (g_lastHandler >= 0) {
+        const auto& o = handlerOwner[(size_t)g_lastHandler];
+        return out + "ran " + std::to_string(o.first) + "." + std::to_string(o.second);
+    }
+    return out + "nothing";
+}
+
 } // namespace
 
 int main(int argc, char** argv)
 {
+    mfuse::verif::now_ms = &fixedClock;
     EventContext ctx;
     static NamespaceDef ns1("verif_ns1", "host namespace 1");
     static NamespaceDef ns2("verif_ns2", "host namespace 2");
@@ -433,6 +477,12 @@ int main(int argc, char** argv)
             if (!built || !parseNat(t[1], cls) || cls <= nBuiltinCls || cls > clss.size() ||
                 !(t[2] == "script" || t[2] == "ret" || t[2] == "proc") || !parseKind(t[3], kind) || kind == evType_e::None || !nameOk(t[4])) { say("bad-op"); continue; }
             say(doCall(cls, t[2], kind, t[4]));
+            continue;
+        }
+        if (op == "delay" && t.size() == 3) {
+            size_t cls;
+            if (!built || !parseNat(t[1], cls) || cls <= nBuiltinCls || cls > clss.size() || !nameOk(t[2])) { say("bad-op"); continue; }
+            say(doDelay(cls, t[2]));
             continue;
         }
         say("bad-op");
